@@ -101,6 +101,10 @@ pub use data_structures::*;
 pub use space::CommitterKeyStream;
 pub use time::CommitterKey;
 
+/// Accessors for external conformance harnesses (only with `--cfg pc_verif`).
+#[cfg(pc_verif)]
+pub mod verif_hooks;
+
 #[cfg(test)]
 #[allow(missing_docs)]
 pub mod tests;
